@@ -102,6 +102,11 @@ def judge_sequence(kind, ident, seed, ops, wrap_state=False, reuse=False):
             oname = op[1]
             if not spaces_equal(ge.observation_space, make_observation_representation(oname, twin.observation_space).space):
                 return f'{where}: advertised observation space was not updated consistently'
+            if started:
+                cur = ge.observation
+                want_cur = make_observation_representation(oname, twin.observation_space).convert(twin.observation)
+                if not arrays_equal(cur, want_cur) or not ge.observation_space.contains(cur):
+                    return f'{where}: after the switch the current observation is not in the new representation / advertised space'
             continue
         if op[0] == 'srep':
             if srep is None:
@@ -110,6 +115,10 @@ def judge_sequence(kind, ident, seed, ops, wrap_state=False, reuse=False):
             sname = op[1]
             if not spaces_equal(ge.state_space, make_state_representation(sname, twin.state_space).space):
                 return f'{where}: advertised state space was not updated consistently'
+            if started:
+                cur = ge.state
+                if not arrays_equal(cur, make_state_representation(sname, twin.state_space).convert(twin.state)) or not ge.state_space.contains(cur):
+                    return f'{where}: after the switch the current state is not in the new representation / advertised space'
             if wrap_state:
                 # the wrapper's space is fixed at construction (documented: wraps the env as is); re-wrap
                 top = GG.GymStateWrapper(ge)
@@ -149,6 +158,8 @@ def judge_sequence(kind, ident, seed, ops, wrap_state=False, reuse=False):
                 return f'{where}: returned observation outside the advertised observation space'
             if op[0] == 'step' and info != {}:
                 return f'{where}: info is {info!r}, expected an empty dict'
+        if not arrays_equal(ge.observation, want_obs):
+            return f'{where}: the observation property differs from the representation of the current observation'
         if srep is not None and ge.outer_env.state_representation is not None:
             if not arrays_equal(ge.state, srep.convert(twin.state)):
                 return f'{where}: gym-level state is not the representation of the inner state'
@@ -169,6 +180,7 @@ def sequences(n_actions, depth, variants):
                 for name in REPS[1:]:
                     yield [('reset',)] + steps[:p] + [('orep', name)] + steps[p:]
             yield [('orep', 'compact'), ('srep', 'no-overlap'), ('reset',)] + steps
+            yield [('reset',)] + steps[:1] + [('srep', 'compact')] + steps[1:] + [('srep', 'no-overlap'), ('orep', 'no-overlap')]
             yield steps[:1] + [('reset',)] + steps
 
 
